@@ -76,7 +76,8 @@ def items(t, bound=()):
         out = []
         for x in t[1]:
             fe = [e for e in free_elems(x) if e not in bound]
-            if fe:
+            nested = x[0] == 'ctor' and x[1] in ('Tag::Sequence', 'Tag::Set') and len(x[2]) == 1 and absx.field_term(x[2][0], 'inner')[0] == 'vec'
+            if fe and not nested:
                 # an element pushed inside a `for` loop over fe[0][1]: one generic element stands for all
                 out.append(('MANY', fe[0][1], fe[0], to_shape(x, bound + (fe[0],))))
             else:
@@ -84,6 +85,8 @@ def items(t, bound=()):
         return out
     if t[0] == 'many':
         return [('MANY', t[1], t[2], to_shape(t[3], bound + (t[2],)))]
+    if t[0] in ('param', 'cparam', 'unbound'):
+        return [('LIST', t)]
     if t[0] == 'vecpush':
         return items(t[1], bound) + [to_shape(t[2], bound)]
     return [('UNKNOWN', 'item list', t)]
@@ -97,6 +100,8 @@ def fmt_shape(s, depth=0):
         return '(%s)* over %s' % (fmt_shape(s[3], depth + 1), absx.fmt(s[1])[:30])
     if s[0] == 'ANY':
         return 'ANY(%s)' % absx.fmt(s[1])[:40]
+    if s[0] == 'LIST':
+        return 'LIST(%s)' % absx.fmt(s[1])[:40]
     return 'UNKNOWN(%s: %s)' % (s[1], absx.fmt(s[2])[:60])
 
 # ---------------------------------------------------------------------------------------
@@ -202,7 +207,10 @@ def compare_items(acts, refs, pc, env, where):
             out.append('%s: element missing' % w)
             continue
         a = acts[ai]
-        if r[0] == 'MANY':
+        if r[0] == 'LIST':
+            if a[0] != 'LIST' or not r[1](a[1], env):
+                out.append('%s: expected the list of sub-elements passed in, found %s' % (w, fmt_shape(a) if a[0] != 'LIST' else absx.fmt(a[1])))
+        elif r[0] == 'MANY':
             if a[0] != 'MANY':
                 out.append('%s: expected a repeated element, found %s' % (w, fmt_shape(a)))
             else:
